@@ -15,4 +15,5 @@ def run(res):
     K2 = wc.base(Acts={'create', 'remove', 'delete', 'process', 'toggle'}, Ids={1, 2}, MaxAuto=1, Types=wc.T2, Bases=wc.BASES2,
                  MaxQ=3, **wc.comps(C3))
     wc.check_and_replay(res, 'c05_disabled', K2, own, depth_all=0, walks=20000 if th else 2000, walk_len=30)
+    wc.trace_validate(res, 'c05_recorded', wc.big({'create', 'add', 'remove', 'delete', 'process', 'toggle', 'proc', 'fault'}), 2000 if th else 150, 60)
     wc.switch_run(res, 'c05', K, 'ClearDeadGuards', ('ProcessNeverFails', 'RegisteredIffAttached', 'FreedAfterProcess'))
